@@ -79,7 +79,13 @@ func runElps(args []string, stdout io.Writer) error {
 
 	env := lisp.NewEnv(nil)
 	env.Runtime.Reader = parser.NewReader()
-	env.Runtime.Library = &lisp.FSLibrary{FS: os.DirFS(rootDir)}
+	// os.Root, unlike os.DirFS, also refuses symbolic links that lead out of
+	// the tree: --root-dir promises that load-file reads only files within it.
+	root, err := os.OpenRoot(rootDir)
+	if err != nil {
+		return fmt.Errorf("cannot open root directory: %w", err)
+	}
+	env.Runtime.Library = &lisp.FSLibrary{FS: root.FS()}
 	for _, rc := range []*lisp.LVal{
 		lisp.InitializeUserEnv(env),
 		lisplib.LoadLibrary(env),
